@@ -151,12 +151,57 @@ def run(ctx, rep) -> None:
         rep.check(ok, "C19.R4", f"{s.func.qualname}: tasks read in creation order", f"ORDER BY {s.order_by or '(none)'}", s.file, s.line, disc=f"{s.func.qualname}:order")
     rep.floor("SELECTs that load tasks", len([s for s in sel if "row_to_task" in norm(s.func.node)]), 2)
 
+    # ---- R2b: a conditional encoder drops the value only when the value is absent -----------------------------------------
+    # `ENC(x) if <test> else None` in the parameters of a write must test the presence of x and nothing else: any further
+    # condition stores NULL for a value that exists, and the read side returns None for it (a silent change between write and read)
+    n_cond = 0
+    for st_ in sqlshape.statements(prog):
+        if st_.kind not in ("INSERT", "UPDATE") or not st_.func.module.name.startswith("stabilize.persistence") or not sqlshape.is_sqlite(st_) and rep.tier != "thorough":
+            continue
+        dicts = [a_ for a_ in st_.node.args[1:] if isinstance(a_, ast.Dict)]
+        if not dicts and len(st_.node.args) > 1 and isinstance(st_.node.args[1], ast.Name):
+            dicts = [a_.value for a_ in ast.walk(st_.func.node) if isinstance(a_, ast.Assign) and norm(a_.targets[0]) == st_.node.args[1].id and isinstance(a_.value, ast.Dict)]
+        for d_ in dicts:
+            for k_, v_ in zip(d_.keys, d_.values):
+                # unwrap one level of parentheses / calls around the conditional
+                conds = [x_ for x_ in ast.walk(v_) if isinstance(x_, ast.IfExp) and isinstance(x_.orelse, ast.Constant) and x_.orelse.value is None]
+                for c_ in conds[:1]:
+                    n_cond += 1
+                    names = {norm(x_) for x_ in ast.walk(c_.body) if isinstance(x_, ast.Attribute)}
+                    t_ = c_.test
+                    subject = norm(t_.left) if isinstance(t_, ast.Compare) and len(t_.ops) == 1 and isinstance(t_.ops[0], ast.IsNot) and norm(t_.comparators[0]) == "None" else norm(t_)
+                    ok_ = not isinstance(t_, ast.BoolOp) and any(subject == n_ or n_.startswith(subject + ".") or subject.startswith(n_) for n_ in names | {norm(c_.body)})
+                    rep.check(ok_, "C19.R2", f"{st_.func.qualname}: `{norm(k_) if k_ is not None else '?'}` is written whenever the value exists", f"NULL only under `not ({norm(t_)})`" if ok_ else
+                              f"`{norm(c_)[:120]}`: the value is replaced by NULL under a condition that is more than its absence - an existing `{norm(k_) if k_ is not None else '?'}` is stored as NULL and read back as None",
+                              st_.file, c_.lineno, disc=f"cond-null:{st_.func.qualname}:{norm(k_) if k_ is not None else '?'}")
+    rep.count(conditional_encoders=n_cond)
+
     # ---- R5 messages ------------------------------------------------------------------------------
     mm = prog.module("stabilize.queue.messages")
     reg = mm.assigns.get("MESSAGE_TYPES")
-    if not isinstance(reg, ast.Dict):
+    if reg is None:
         raise AnalysisError("MESSAGE_TYPES not found")
-    registry = {k.value: norm(v) for k, v in zip(reg.keys, reg.values) if isinstance(k, ast.Constant)}
+    if isinstance(reg, ast.Dict):
+        registry = {k.value: norm(v) for k, v in zip(reg.keys, reg.values) if isinstance(k, ast.Constant)}
+    else:
+        # a registry computed from the class hierarchy: enumerate it statically - the transitive subclasses (in this module)
+        # of the class(es) named in the expression, minus names excluded through literal string sets
+        roots = [n.id for n in ast.walk(reg) if isinstance(n, ast.Name) and n.id in mm.classes]
+        uses_subclasses = any("__subclasses__" in norm(f_.node) for f_ in mm.functions.values() if any(isinstance(n, ast.Name) and n.id == f_.name for n in ast.walk(reg)))
+        excluded: set = set()
+        for n in ast.walk(reg):
+            if isinstance(n, ast.Name) and isinstance(mm.assigns.get(n.id), (ast.Set, ast.List, ast.Tuple)):
+                excluded |= {e.value for e in mm.assigns[n.id].elts if isinstance(e, ast.Constant)}
+        if not roots or not uses_subclasses:
+            rep.fail("C19.R5", "message registry is statically enumerable", f"MESSAGE_TYPES = {norm(reg)[:120]} is neither a literal table nor built from __subclasses__() of a class of this module: which types can be delivered cannot be decided",
+                     mm.relpath, getattr(reg, "lineno", 0), disc="registry-opaque")
+            registry = {}
+        else:
+            registry = {}
+            for name_, ci_ in mm.classes.items():
+                anc = [c_.name for c_ in prog.mro(ci_)[1:]]
+                if any(r_ in anc for r_ in roots) and name_ not in excluded:
+                    registry[name_] = name_
     base = mm.classes["Message"]
     abstract = {"Message", "WorkflowLevel", "StageLevel", "TaskLevel"}
     for name, ci in mm.classes.items():
@@ -164,7 +209,7 @@ def run(ctx, rep) -> None:
             continue
         rep.check(registry.get(name) == name, "C19.R5", f"message {name} is registered under its own name", f"MESSAGE_TYPES[{name!r}] = {registry.get(name)}", mm.relpath, ci.node.lineno, disc=f"reg:{name}")
     for k, v in registry.items():
-        rep.check(k == v and v in mm.classes, "C19.R5", f"registry entry {k}", f"-> {v}", mm.relpath, reg.lineno, disc=f"entry:{k}")
+        rep.check(k == v and v in mm.classes, "C19.R5", f"registry entry {k}", f"-> {v}", mm.relpath, getattr(reg, "lineno", 0), disc=f"entry:{k}")
     rep.floor("message classes", len(registry), 23)
     gm = mm.functions["get_message_type_name"].node
     rep.check("message.__class__.__name__" in norm(gm), "C19.R5", "type name written = class name", "", mm.relpath, gm.lineno, disc="typename")
